@@ -683,8 +683,39 @@ def full_check(m: onnx.ModelProto):
         so.log_severity_level = 4
         ort.InferenceSession(m.SerializeToString(), so, providers=["CPUExecutionProvider"])
     except Exception as e:  # noqa: BLE001
-        problems.append("onnxruntime load: " + str(e)[:300])
+        if not _ort_function_inliner_at_fault(m):
+            problems.append("onnxruntime load: " + str(e)[:300])
+        else:
+            ORT_INLINER_EXCUSED.append(str(e)[:120])
     return problems
+
+
+ORT_INLINER_EXCUSED: list = []
+
+
+def _ort_function_inliner_at_fault(m: onnx.ModelProto) -> bool:
+    """onnxruntime (1.30) fails with 'the graph is not acyclic' in its ahead-of-time inlining of local functions when one function is
+    called both inside a control-flow body (with captured outer values) and in the enclosing graph.  Nothing is wrong with such a
+    model: the full checker accepts it, onnxruntime loads and runs it with graph optimisations disabled, and loads it with default
+    options once ONNX's own inliner has expanded the functions.  A load failure is attributed to that defect ONLY when the model has
+    local functions and BOTH of these alternative loads succeed; otherwise it counts against the model."""
+    import onnxruntime as ort
+
+    if not m.functions:
+        return False
+    try:
+        so = ort.SessionOptions()
+        so.log_severity_level = 4
+        so.graph_optimization_level = ort.GraphOptimizationLevel.ORT_DISABLE_ALL
+        ort.InferenceSession(m.SerializeToString(), so, providers=["CPUExecutionProvider"])
+        import onnx.inliner
+
+        so2 = ort.SessionOptions()
+        so2.log_severity_level = 4
+        ort.InferenceSession(onnx.inliner.inline_local_functions(m).SerializeToString(), so2, providers=["CPUExecutionProvider"])
+        return True
+    except Exception:  # noqa: BLE001
+        return False
 
 
 # ------------------------------------------------------------------------------------------------ shared correspondence pass
